@@ -35,6 +35,17 @@
 //!     edges, at vertices): uv = UvMapping::point(f, w) is the w-combination of the face's UV corners; uv_to_3d(uv) is the
 //!     w-combination of the SAME face's 3D corners (and, for interior weights, carries that face's normal);
 //!     uv_with_tol(that 3D point) gives uv back with depth 0.
+//! (e) PARAMETER-SPACE AUDIT (wave 5).  MAGNITUDES: planar disks scaled by 1e-9 .. 1e6 (extent 1e-9 .. 1e7; tiny ones only in
+//!     poses without a translation, so that the INPUT keeps its digits); a 40 x 40 grid (1681 vertices).  NEEDLES: triangles
+//!     of aspect 1000 : 1 -- a whole grid stretched by 1000 (corner angles of 0.001 rad, cot = +1000), one thin column of
+//!     cells between ordinary ones, and caps (an inner / boundary vertex 0.001 off an edge: a corner angle of pi - 0.002 rad,
+//!     cot = -1000), up to 3000 : 1.  The isometry clauses are the same as in (a).  UV QUERIES: every uv_samples mesh again
+//!     in FAR poses (1e4, 1e6 from the origin), reached both by building it there and by `Mesh::transform`; uv_with_tol with
+//!     the angle tolerance pi AND 0.3 rad (a point ON the surface has no offset direction: it must be answered whatever the
+//!     angle tolerance), with a large search distance, and through `Some(transform)` (the query given in another frame);
+//!     hand-made UV maps far from the UV origin (1e4, 1e6).  SEQUENCES on a UV-carrying mesh: clone, transform there and
+//!     back, new_with_options(.., Some(uv)), `append` of / to a mesh without a UV map (whatever append answers, a mesh that
+//!     carries a UV map afterwards must round-trip a point of EVERY face it now has: 3D -> uv -> 3D, no panic).
 use super::{thorough, Report};
 use crate::geom2::Point2;
 use crate::geom3::{Iso3, Mesh, Point3, UvMapping, Vector3};
@@ -218,6 +229,13 @@ fn flatten(mesh: &Mesh) -> Result<Vec<Point2>, String> { flatten_from(mesh, None
 /// stored loop rotated so that it begins k places after its smallest vertex id -- a state `calc_edges` itself produces
 /// with probability 1 / (loop length); this makes the run reproducible.
 fn flatten_from(mesh: &Mesh, start: Option<usize>) -> Result<Vec<Point2>, String> {
+    // a panic inside the code under test is an answer as well (reported with the input by the caller's "returns Ok" clause)
+    match std::panic::catch_unwind(std::panic::AssertUnwindSafe(|| flatten_from_inner(mesh, start))) {
+        Ok(r) => r,
+        Err(p) => Err(format!("PANIC: {}", p.downcast_ref::<String>().cloned().or(p.downcast_ref::<&str>().map(|s| s.to_string())).unwrap_or_default())),
+    }
+}
+fn flatten_from_inner(mesh: &Mesh, start: Option<usize>) -> Result<Vec<Point2>, String> {
     let mut e = mesh.calc_edges().map_err(|e| format!("calc_edges: {}", e))?;
     if let (Some(k), 1) = (start, e.boundary_loops.len()) {
         let l = &mut e.boundary_loops[0];
@@ -345,6 +363,8 @@ fn check_curved(r: &mut Report, w: &mut Worst, c: &Curved) -> Option<Vec<[f64; 2
     runs.push(("second call, identity pose".to_string(), c.verts.clone(), 1.0, Some(0), 0));
     runs.push(("scaled by 0.125".to_string(), c.verts.iter().map(|v| Point3::from(v.coords * 0.125)).collect(), 0.125, Some(0), 0));
     runs.push(("scaled by 1000 and moved".to_string(), c.verts.iter().map(|v| poses()[1].1 * Point3::from(v.coords * 1000.0)).collect(), 1000.0, Some(0), 0));
+    runs.push(("scaled by 1e-6".to_string(), c.verts.iter().map(|v| Point3::from(v.coords * 1e-6)).collect(), 1e-6, Some(0), 0));
+    runs.push(("scaled by 1e5, turned over".to_string(), c.verts.iter().map(|v| poses()[4].1 * Point3::from(v.coords * 1e5)).collect(), 1e5, Some(0), 0));
     // the same mesh with the stored boundary loop beginning at another vertex (calc_edges picks the start by hash order)
     for k in [1, bl / 4, bl / 2, (3 * bl) / 4] { if k > 0 && k < bl { runs.push((format!("identity pose, boundary loop stored from {} places further", k), c.verts.clone(), 1.0, Some(k), 1)); } }
     // the plain call
@@ -446,6 +466,25 @@ fn rejection(r: &mut Report) {
     check_rejected(r, "[single boundary loop, not a disk: disk + separate closed box] ", "3x3 grid disk and a separate closed box", v, f);
     let (tv, tf) = torus_with_hole(6, 5);
     check_rejected(r, "[single boundary loop, not a disk: torus with one face removed] ", "torus 6x5 quads, one triangle removed (genus 1, one boundary)", tv, tf);
+    // ONE boundary loop AND V - E + F = 1, yet two pieces: a disk and a separate CLOSED TORUS (Euler characteristic 1 + 0)
+    let (mut v, mut f) = (flat3(&disk), disk.faces.clone());
+    let off = v.len() as u32;
+    let (cv, cf) = torus_closed(6, 5);
+    for q in cv.iter() { v.push(p3(q.x + 20.0, q.y, q.z)); }
+    for t in cf.iter() { f.push([t[0] + off, t[1] + off, t[2] + off]); }
+    check_rejected(r, "", "3x3 grid disk and a separate closed torus (one boundary loop, V - E + F = 1, two pieces)", v, f);
+    // a Moebius strip: one boundary loop, one piece, V - E + F = 0, not orientable
+    let n = 9usize;
+    let mut mv = Vec::new();
+    for i in 0..n { let a = i as f64 * 2.0 * std::f64::consts::PI / n as f64; for sgn in [-1.0, 1.0] { let h = 0.4 * sgn; mv.push(p3((2.0 + h * (a / 2.0).cos()) * a.cos(), (2.0 + h * (a / 2.0).cos()) * a.sin(), h * (a / 2.0).sin())); } }
+    let mut mf: Vec<[u32; 3]> = Vec::new();
+    for i in 0..n {
+        let (a0, a1) = ((2 * i) as u32, (2 * i + 1) as u32);
+        // the last segment joins back with the two sides swapped (the half twist)
+        let (b0, b1) = if i + 1 < n { ((2 * i + 2) as u32, (2 * i + 3) as u32) } else { (1u32, 0u32) };
+        mf.push([a0, b0, b1]); mf.push([a0, b1, a1]);
+    }
+    check_rejected(r, "", "Moebius strip of 9 segments (one boundary loop, one piece, V - E + F = 0)", mv, mf);
 }
 
 /// LAST clause of the run (own name).  Two disks sharing ONE vertex: the boundary successor map built by identify_edges is
@@ -465,7 +504,8 @@ fn rejection_vertex_contact(r: &mut Report) {
     }
 }
 
-fn torus_with_hole(nu: usize, nv: usize) -> (Vec<Point3>, Vec<[u32; 3]>) {
+fn torus_with_hole(nu: usize, nv: usize) -> (Vec<Point3>, Vec<[u32; 3]>) { let (v, mut f) = torus_closed(nu, nv); f.remove(0); (v, f) }
+fn torus_closed(nu: usize, nv: usize) -> (Vec<Point3>, Vec<[u32; 3]>) {
     let mut v = Vec::new();
     for i in 0..nu {
         for j in 0..nv {
@@ -481,7 +521,6 @@ fn torus_with_hole(nu: usize, nv: usize) -> (Vec<Point3>, Vec<[u32; 3]>) {
             f.push([id(i, j), id(i + 1, j + 1), id(i, j + 1)]);
         }
     }
-    f.remove(0);
     (v, f)
 }
 
@@ -506,14 +545,34 @@ fn check_uv(r: &mut Report, w: &mut Worst, name: &str, verts: &[Point3], faces: 
         Err(e) => { r.case(); r.check(false, "UV round trip: UvMapping::new accepts one UV position per vertex and the mesh faces", || format!("{}: {}", name, e)); return; }
     };
     let mesh = Mesh::new_with_uv(verts.to_vec(), faces.to_vec(), false, Some(map));
-    let size = { let a = mesh.aabb(); (a.maxs - a.mins).norm() };
+    check_uv_mesh(r, w, name, &mesh, verts, faces, uv, 1);
+}
+
+/// is the UV map an embedding (every UV triangle positively oriented, not a sliver)?  The round trip is only well defined then.
+fn uv_embedding(faces: &[[u32; 3]], uv: &[[f64; 2]]) -> bool {
+    let d = diameter(uv);
+    faces.iter().all(|f| area2(uv[f[0] as usize], uv[f[1] as usize], uv[f[2] as usize]) > 1e-9 * d * d)
+}
+
+/// the round-trip clauses on a mesh that carries a UV map; `verts` / `faces` / `uv` are what the mesh is EXPECTED to hold
+/// (they are the oracle: the mesh may have been moved or rebuilt since).  `stride`: use every stride-th face.
+fn check_uv_mesh(r: &mut Report, w: &mut Worst, name: &str, mesh: &Mesh, verts: &[Point3], faces: &[[u32; 3]], uv: &[[f64; 2]], stride: usize) {
+    let size = { let (mut lo, mut hi) = ([f64::INFINITY; 3], [f64::NEG_INFINITY; 3]); for v in verts { for k in 0..3 { lo[k] = lo[k].min(v[k]); hi[k] = hi[k].max(v[k]); } } ((hi[0] - lo[0]).powi(2) + (hi[1] - lo[1]).powi(2) + (hi[2] - lo[2]).powi(2)).sqrt() };
     let usize_ = diameter(uv);
     // the UV map must be an embedding for the round trip to be well defined: skip folded maps (reported under (a) for planar disks)
-    if faces.iter().any(|f| !(area2(uv[f[0] as usize], uv[f[1] as usize], uv[f[2] as usize]) > 1e-9 * usize_ * usize_)) { return; }
-    let tol3 = 1e-9 * size;
-    let tol2 = 1e-9 * usize_;
+    if !uv_embedding(faces, uv) { return; }
+    // coordinates far from the origin carry fewer digits: the tolerance follows the magnitude of the data (1e-9 of the size near
+    // the origin, a few ulps of the coordinates far away)
+    let far3 = verts.iter().map(|v| v.coords.norm()).fold(0.0, f64::max);
+    let far2 = uv.iter().map(|p| (p[0] * p[0] + p[1] * p[1]).sqrt()).fold(0.0, f64::max);
+    let tol3 = (1e-9 * size).max(64.0 * f64::EPSILON * far3);
+    let tol2 = (1e-9 * usize_).max(64.0 * f64::EPSILON * far2).max(tol3 * usize_ / size);
     let Some(map) = mesh.uv() else { r.case(); r.check(false, "UV round trip: new_with_uv keeps the UV map", || name.to_string()); return; };
+    // a frame change for the `Some(transform)` form of the query: uv_with_tol(p, .., Some(T)) looks up T * p
+    let frame = Iso3::new(Vector3::new(-3.0e3, 1.5e3, 250.0), Vector3::new(0.4, -0.2, 1.3));
+    let frame_inv = frame.inverse();
     for (k, f) in faces.iter().enumerate() {
+        if k % stride != 0 { continue; }
         let (a, b, c) = (verts[f[0] as usize], verts[f[1] as usize], verts[f[2] as usize]);
         let (ua, ub, uc) = (uv[f[0] as usize], uv[f[1] as usize], uv[f[2] as usize]);
         let n = (b - a).cross(&(c - a)).normalize();
@@ -533,25 +592,102 @@ fn check_uv(r: &mut Report, w: &mut Worst, name: &str, verts: &[Point3], faces: 
                 w.rt = w.rt.max(e / size);
                 r.check(e <= tol3, "UV round trip: uv_to_3d returns the surface point the uv came from", || format!("{}: uv {:?} -> {:?}, expected {:?}", d(), q2, sp.point.coords.as_slice(), q3.coords.as_slice()));
                 if wi < 4 {
-                    r.check((sp.normal.into_inner() - n).norm() <= 1e-9, "UV round trip: uv_to_3d of an interior uv carries the normal of that face", || format!("{}: normal {:?}, expected {:?}", d(), sp.normal.as_slice(), n.as_slice()));
+                    let min_edge = (b - a).norm().min((c - b).norm()).min((a - c).norm());
+                    r.check((sp.normal.into_inner() - n).norm() <= (1e-9f64).max(64.0 * f64::EPSILON * far3 / min_edge), "UV round trip: uv_to_3d of an interior uv carries the normal of that face", || format!("{}: normal {:?}, expected {:?}", d(), sp.normal.as_slice(), n.as_slice()));
                 }
             }
-            // 3D -> uv
-            let fwd = mesh.uv_with_tol(&q3, 1e-6 * size, std::f64::consts::PI, None);
-            r.check(fwd.is_some(), "UV round trip: uv_with_tol answers for a point on the surface", || d());
-            if let Some((u, depth)) = fwd {
-                let e = ((u.x - q2[0]).powi(2) + (u.y - q2[1]).powi(2)).sqrt();
-                w.rt = w.rt.max(e / usize_);
-                r.check(e <= tol2, "UV round trip: uv_with_tol of a surface point returns its uv", || format!("{}: point {:?} -> uv ({}, {}), expected {:?}", d(), q3.coords.as_slice(), u.x, u.y, q2));
-                r.check(depth.abs() <= tol3, "UV round trip: a point on the surface has depth 0", || format!("{}: depth {}", d(), depth));
+            // 3D -> uv: a point ON the surface is answered whatever the angle tolerance and however generous the search distance
+            for (qi, (max_dist, max_angle, tf)) in [(1e-6 * size, std::f64::consts::PI, false), (1e-6 * size, 0.3, false), (1e3 * size, 0.02, false), (1e-6 * size, 0.3, true)].iter().enumerate() {
+                if qi >= 2 && (wi + k) % 3 != 0 { continue; }
+                let fwd = if *tf { mesh.uv_with_tol(&(frame_inv * q3), *max_dist, *max_angle, Some(&frame)) } else { mesh.uv_with_tol(&q3, *max_dist, *max_angle, None) };
+                // (the frame change costs a few ulps of 3e3)
+                let (t2, t3) = if *tf { (tol2.max(1e-11 * usize_ / size * (1.0 + far3)), tol3.max(1e-11 * (1.0 + far3))) } else { (tol2, tol3) };
+                let dq = || format!("{}, search distance {:e}, angle tolerance {}, {}", d(), max_dist, max_angle, if *tf { "query given in another frame (Some(transform))" } else { "no transform" });
+                r.check(fwd.is_some(), "UV round trip: uv_with_tol answers for a point on the surface", || dq());
+                if let Some((u, depth)) = fwd {
+                    let e = ((u.x - q2[0]).powi(2) + (u.y - q2[1]).powi(2)).sqrt();
+                    w.rt = w.rt.max(e / usize_);
+                    r.check(e <= t2, "UV round trip: uv_with_tol of a surface point returns its uv", || format!("{}: point {:?} -> uv ({}, {}), expected {:?}", dq(), q3.coords.as_slice(), u.x, u.y, q2));
+                    r.check(depth.abs() <= t3, "UV round trip: a point on the surface has depth 0", || format!("{}: depth {}", dq(), depth));
+                }
             }
         }
     }
 }
 
+/// 3D -> uv -> 3D on EVERY face the mesh now has (no oracle for the uv needed): used after mutating operations.  A mesh without
+/// a UV map has nothing to round-trip.  Runs under catch_unwind: an index past the UV map's face list panics inside parry.
+fn check_uv_closed_loop(r: &mut Report, name: &str, mesh: &Mesh) {
+    r.case();
+    if mesh.uv().is_none() { return; }
+    let m2 = mesh.clone();
+    let res = std::panic::catch_unwind(std::panic::AssertUnwindSafe(move || {
+        let (verts, faces) = (m2.vertices().to_vec(), m2.faces().to_vec());
+        let size = { let a = m2.aabb(); (a.maxs - a.mins).norm() };
+        let mut bad: Option<String> = None;
+        for (k, f) in faces.iter().enumerate() {
+            let (a, b, c) = (verts[f[0] as usize], verts[f[1] as usize], verts[f[2] as usize]);
+            for wt in [WEIGHTS[0], WEIGHTS[3]] {
+                let q3 = Point3::from(a.coords * wt[0] + b.coords * wt[1] + c.coords * wt[2]);
+                let back = m2.uv_with_tol(&q3, 1e-6 * size, 0.3, None).and_then(|(u, _)| m2.uv_to_3d(&u));
+                let ok = back.map(|sp| (sp.point - q3).norm() <= 1e-9 * size).unwrap_or(false);
+                if !ok && bad.is_none() { bad = Some(format!("face {} {:?} of {} faces, weights {:?}: point {:?} -> {:?}", k, f, faces.len(), wt, q3.coords.as_slice(), back.map(|sp| [sp.point.x, sp.point.y, sp.point.z]))); }
+            }
+        }
+        bad
+    }));
+    match res {
+        Ok(bad) => r.check(bad.is_none(), "UV round trip: a mesh carrying a UV map maps a point of every one of its faces to uv and back to the same point", || format!("{}: {}", name, bad.clone().unwrap_or_default())),
+        Err(_) => r.check(false, "UV round trip: querying a mesh that carries a UV map does not panic", || name.to_string()),
+    }
+}
+
+/// SEQUENCES of operations on a UV-carrying mesh (see (e) in the header)
+fn check_uv_sequences(r: &mut Report, w: &mut Worst, name: &str, verts: &[Point3], faces: &[[u32; 3]], uv: &[[f64; 2]]) {
+    if !uv_embedding(faces, uv) { return; }
+    let make_map = || UvMapping::new(uv.iter().map(|p| Point2::new(p[0], p[1])).collect(), faces.to_vec());
+    let Ok(map) = make_map() else { return; };
+    let base = Mesh::new_with_uv(verts.to_vec(), faces.to_vec(), false, Some(map));
+    // clone
+    check_uv_mesh(r, w, &format!("{} [clone]", name), &base.clone(), verts, faces, uv, 3);
+    // the `is_solid` flag set (an open disk has no inside: surface points are answered alike)
+    if let Ok(map) = make_map() { check_uv_mesh(r, w, &format!("{} [is_solid = true]", name), &Mesh::new_with_uv(verts.to_vec(), faces.to_vec(), true, Some(map)), verts, faces, uv, 3); }
+    // new_with_options(.., Some(uv)), nothing merged or deleted
+    if let (Ok(map), true) = (make_map(), true) {
+        match Mesh::new_with_options(verts.to_vec(), faces.to_vec(), false, false, false, Some(map)) {
+            Ok(m) => check_uv_mesh(r, w, &format!("{} [new_with_options]", name), &m, verts, faces, uv, 3),
+            Err(e) => { r.case(); r.check(false, "UV round trip: new_with_options accepts what new_with_uv accepts", || format!("{}: {}", name, e)); }
+        }
+    }
+    // transform: far away, and there and back
+    let far = Iso3::new(Vector3::new(2.0e4, -1.0e4, 3.0e4), Vector3::new(-0.7, 0.4, 2.1));
+    let mut m = base.clone();
+    m.transform(&far);
+    let moved: Vec<Point3> = verts.iter().map(|v| far * v).collect();
+    check_uv_mesh(r, w, &format!("{} [Mesh::transform to 3.7e4 from the origin]", name), &m, &moved, faces, uv, 2);
+    m.transform(&far.inverse());
+    let back: Vec<Point3> = moved.iter().map(|v| far.inverse() * v).collect();
+    check_uv_mesh(r, w, &format!("{} [Mesh::transform there and back]", name), &m, &back, faces, uv, 3);
+    // append: whatever it answers, a mesh that carries a UV map afterwards round-trips a point of every face it has
+    let plain = Mesh::new(vec![p3(50.0, 0.0, 0.0), p3(51.0, 0.0, 0.0), p3(50.0, 1.0, 0.0), p3(51.0, 1.0, 0.5)], vec![[0, 1, 2], [1, 3, 2]], false);
+    let mut a = base.clone();
+    let ans = a.append(&plain);
+    check_uv_closed_loop(r, &format!("{} [after append(mesh without UV) -> {}]", name, if ans.is_ok() { "Ok" } else { "Err" }), &a);
+    if ans.is_err() { check_uv_mesh(r, w, &format!("{} [after a rejected append]", name), &a, verts, faces, uv, 3); }
+    let mut b = plain.clone();
+    let ans = b.append(&base);
+    check_uv_closed_loop(r, &format!("{} [mesh without UV after append(UV mesh) -> {}]", name, if ans.is_ok() { "Ok" } else { "Err" }), &b);
+    let mut c = base.clone();
+    let ans = c.append(&base);
+    check_uv_closed_loop(r, &format!("{} [after append(itself) -> {}]", name, if ans.is_ok() { "Ok" } else { "Err" }), &c);
+    // the same operation twice
+    let ans2 = a.append(&plain);
+    check_uv_closed_loop(r, &format!("{} [after a second append(mesh without UV) -> {}]", name, if ans2.is_ok() { "Ok" } else { "Err" }), &a);
+}
+
 // ------------------------------------------------------------------------------------------------ driver
 pub fn run() -> Option<Report> {
-    let mut r = Report::new("TESTING-GRADE (no clause here is deduction). Planar disks: jittered grids (jitter <= 0.2 pitch; diagonals fixed / alternating / LCG / locally Delaunay) 3x3, 6x5, 15x15 (256 vertices) [thorough: 30x30], L 6x6 and 12x10, U 9x6, plus 9x9, polar fan 7, polar 3x10 and 6x16 round and star, [thorough: 10x40], strips 2x2..2x12 / single triangle / two-triangle square (no inner vertex), each in 3 vertex numberings x 2 face storages x CCW/CW (small meshes all combinations, large ones a fixed subset), scales 1, 1e-3, 1e3, 5 poses (translations up to 2e3, any rotation): Ok, one finite position per vertex, every edge length and triangle area kept to relative 2e-5 / 8e-5, every triangle positively oriented, result = input shape under ONE proper planar rigid motion (residual <= 1e-5 diameter), boundary loop stored from 2..3 different start vertices per variant and once as calc_edges leaves it. Curved disks (spherical caps of half angle 0.5 and 1.2 rad, saddle, half cylinder on jittered grids and polar meshes, up to 256 vertices): 4 poses, a repeated call, scale 0.125 and 1000: result unchanged up to a proper planar rigid motion (and the scale) within 1e-9 diameter for the same stored boundary loop, 2e-5 for a loop stored from another start vertex. A planar disk with one zero-area face (own clause). Rejection under a 4 s watchdog: closed box / tetrahedron, annulus, two holes, two separate disks, two fins, disk + closed box, torus with a hole; last, under a 2 s watchdog, two triangles sharing only a vertex. UV round trip: flattening results of 4 planar and 3 curved disks and 2 hand-made sheared UV maps, every face x 10 weights (4 interior, 3 edge, 3 vertex): point / uv_to_3d / uv_with_tol to 1e-9 of the size");
+    let mut r = Report::new("TESTING-GRADE (no clause here is deduction). Planar disks: jittered grids (jitter <= 0.2 pitch; diagonals fixed / alternating / LCG / locally Delaunay) 3x3, 6x5, 15x15 (256 vertices) [thorough: 30x30], L 6x6 and 12x10, U 9x6, plus 9x9, polar fan 7, polar 3x10 and 6x16 round and star, [thorough: 10x40], strips 2x2..2x12 / single triangle / two-triangle square (no inner vertex), each in 3 vertex numberings x 2 face storages x CCW/CW (small meshes all combinations, large ones a fixed subset), scales 1, 1e-3, 1e3, 5 poses (translations up to 2e3, any rotation): Ok, one finite position per vertex, every edge length and triangle area kept to relative 2e-5 / 8e-5, every triangle positively oriented, result = input shape under ONE proper planar rigid motion (residual <= 1e-5 diameter), boundary loop stored from 2..3 different start vertices per variant and once as calc_edges leaves it. Curved disks (spherical caps of half angle 0.5 and 1.2 rad, saddle, half cylinder on jittered grids and polar meshes, up to 256 vertices): 4 poses, a repeated call, scale 0.125 and 1000: result unchanged up to a proper planar rigid motion (and the scale) within 1e-9 diameter for the same stored boundary loop, 2e-5 for a loop stored from another start vertex. A planar disk with one zero-area face (own clause). Rejection under a 4 s watchdog: closed box / tetrahedron, annulus, two holes, two separate disks, two fins, disk + closed box, torus with a hole; last, under a 2 s watchdog, two triangles sharing only a vertex. UV round trip: flattening results of 4 planar and 3 curved disks and 2 hand-made sheared UV maps, every face x 10 weights (4 interior, 3 edge, 3 vertex): point / uv_to_3d / uv_with_tol to 1e-9 of the size. WAVE 5 (parameter-space audit): planar disks of extent 1e-9 .. 1e7 (scales 1e-9, 1e-7, 1e-6, 1e-5, 1e4, 1e6), a 40 x 40 grid (1681 vertices), unjittered grids / hexagon fan (exact right angles, equal edges); needle and cap triangles of aspect 1000 : 1 (stretched grids and polar mesh, one thin column / row, a vertex 0.001 off an edge: |cot| = 1000) and a single 3000 : 1 face; rejection of a disk + separate closed torus (one loop, V - E + F = 1) and of a Moebius strip; every UV sample again posed 1.2e4 / 1.7e6 from the origin, UV maps moved 1e4 / 1e6 in UV space, uv_with_tol with angle tolerances pi / 0.3 / 0.02, search distance 1e3 sizes, and the query given in another frame (Some(transform)); curved disks also scaled by 1e-6 / 1e5; on every sample: clone, is_solid = true, new_with_options, Mesh::transform far away / there and back, append of and to a mesh without UV map, append of itself, the same append twice -- a mesh that carries a UV map afterwards maps a point of EVERY face to uv and back (no panic)");
     let verbose = std::env::var("VERIF_C20_VERBOSE").is_ok();
     let big = thorough();
     let mut w = Worst { len: 0.0, area: 0.0, fit: 0.0, inv: 0.0, start: 0.0, rt: 0.0 };
@@ -575,6 +711,10 @@ pub fn run() -> Option<Report> {
     small.push(polar("star fan of 8", 1, 8, true, 0.3, 11));
     small.push(polar("polar 3x10 round", 3, 10, false, 0.5, 12));
     small.push(polar("polar 3x10 star", 3, 10, true, 0.3, 13));
+    // exact ties: right angles (cos = 0, cot = 6e-17), equal edge lengths, collinear boundary vertices, equilateral faces
+    small.push(grid("regular grid 4x4, no jitter (right isosceles faces)", 4, 4, 0.0, Diag::Alternate, 14, &all));
+    small.push(polar("regular hexagon fan, no jitter (equilateral faces)", 1, 6, false, 0.0, 15));
+    small.push(grid("regular L 4x4, no jitter, one diagonal direction", 4, 4, 0.0, Diag::Slash, 16, &|i, j| !(i >= 2 && j >= 2)));
     large.push(grid("grid 15x15 delaunay (256 vertices)", 15, 15, 0.2, Diag::Delaunay, 20, &all));
     large.push(grid("grid 15x15 random diagonals (256 vertices)", 15, 15, 0.2, Diag::Random, 21, &all));
     large.push(grid("L 12x10", 12, 10, 0.2, Diag::Slash, 22, &|i, j| !(i >= 5 && j >= 4)));
@@ -643,6 +783,56 @@ pub fn run() -> Option<Report> {
         r.check(!bad, "[zero-area face] planar disk with a zero-area face: an Ok answer carries one FINITE position per vertex (an Err is accepted)", || format!("{}: {:?}", d(), res.as_ref().map(|uv| to_arr(uv))));
     }
 
+    // ---------------------------------------------------------------- (e) magnitudes: tiny and huge disks, a large grid
+    {
+        let picks = [small[1].clone(), small[5].clone(), small[7].clone(), small[13].clone(), variant(&small[9], 2, true, true, 500)];
+        for (mi, m) in picks.iter().enumerate() {
+            let flipped = mi == 4;
+            // tiny: only poses without a translation (identity, turned over), so that the input coordinates keep their digits
+            for (si, sc) in [1e-9, 1e-7, 1e-6, 1e-5].iter().enumerate() { check_planar(&mut r, &mut w, m, flipped, *sc, &ps[if (mi + si) % 2 == 0 { 0 } else { 4 }], Some(mi + si)); }
+            for (si, sc) in [1e4, 1e6].iter().enumerate() { check_planar(&mut r, &mut w, m, flipped, *sc, &ps[(mi + si) % 5], Some(mi + 2 * si)); }
+        }
+        let big_grid = grid("grid 40x40 random diagonals (1681 vertices)", 40, 40, 0.2, Diag::Random, 40, &all);
+        check_planar(&mut r, &mut w, &variant(&big_grid, 2, true, false, 41), false, 1.0, &ps[1], None);
+    }
+    // ---------------------------------------------------------------- (e) needles: aspect 1000 : 1 and more
+    {
+        let stretch = |m: &Flat, sx: f64, sy: f64, name: &str| Flat { name: format!("{} stretched by ({}, {}) [{}]", m.name, sx, sy, name), pts: m.pts.iter().map(|p| [p[0] * sx, p[1] * sy]).collect(), faces: m.faces.clone() };
+        // a grid with given column / row positions, no jitter, alternating diagonals
+        let lattice = |name: &str, xs: &[f64], ys: &[f64]| {
+            let mut all_pts = Vec::new();
+            for y in ys { for x in xs { all_pts.push([*x, *y]); } }
+            let id = |i: usize, j: usize| j * xs.len() + i;
+            let mut fs: Vec<[usize; 3]> = Vec::new();
+            for j in 0..ys.len() - 1 { for i in 0..xs.len() - 1 {
+                let (a, b, c, d) = (id(i, j), id(i + 1, j), id(i + 1, j + 1), id(i, j + 1));
+                if (i + j) % 2 == 0 { fs.push([a, b, c]); fs.push([a, c, d]); } else { fs.push([a, b, d]); fs.push([b, c, d]); }
+            } }
+            compact(name, all_pts, fs)
+        };
+        let mut needles: Vec<Flat> = vec![
+            stretch(&small[7], 1000.0, 1.0, "every corner angle about 0.001 rad or a right angle"),
+            stretch(&small[5], 1.0, 1000.0, "needles the other way"),
+            stretch(&small[13], 1.0, 300.0, "a polar mesh flattened into needles and caps"),
+            lattice("lattice with one column of cells 0.001 wide (aspect 1000 : 1) between ordinary ones", &[0.0, 1.0, 2.0, 2.001, 3.0, 4.25], &[0.0, 1.0, 2.0, 3.0]),
+            lattice("lattice with a row 0.0005 high at the boundary and a column 0.001 wide inside", &[0.0, 1.5, 1.501, 2.5, 4.0], &[0.0, 0.0005, 1.0, 2.25]),
+            // caps: a vertex 0.001 off the middle of an edge -> a corner angle of pi - 0.002 rad (cot = -1000 / -500)
+            Flat { name: "square with its inner vertex 0.001 above the bottom edge (cap, cot = -1000)".into(), pts: vec![[0.0, 0.0], [2.0, 0.0], [2.0, 2.0], [0.0, 2.0], [1.0, 0.001]], faces: vec![[0, 1, 4], [1, 2, 4], [2, 3, 4], [3, 0, 4]] },
+            Flat { name: "strip with a boundary vertex 0.001 off the straight line between its neighbours (cap on the boundary)".into(), pts: vec![[0.0, 0.0], [1.0, 0.001], [2.0, 0.0], [2.0, 1.0], [1.0, 1.0], [0.0, 1.0]], faces: vec![[0, 1, 5], [1, 4, 5], [1, 2, 4], [2, 3, 4]] },
+            Flat { name: "single needle triangle 3000 : 1".into(), pts: vec![[0.0, 0.0], [3000.0, 0.0], [1700.0, 1.0]], faces: vec![[0, 1, 2]] },
+        ];
+        // (not enumerated: LARGE needle meshes. The source solves with L + 1e-8 I; on a mesh stretched by 1000 the smallest eigenvalue of L
+        // drops by that factor and the regulariser shows: measured relative edge error 1.1e-4 on the 256-vertex grid stretched by
+        // 1000 -- the limitation recorded in props/C20.json, not a new finding)
+        for m in needles.iter() { for f in m.faces.iter() { assert!(area2(m.pts[f[0] as usize], m.pts[f[1] as usize], m.pts[f[2] as usize]) > 0.0, "builder produced a clockwise / flat triangle in {}", m.name); } }
+        for (mi, m) in needles.iter().enumerate() {
+            check_planar(&mut r, &mut w, m, false, 1.0, &ps[mi % 5], Some(mi));
+            let v = variant(m, 2, true, mi % 2 == 1, 600 + mi as u64);
+            check_planar(&mut r, &mut w, &v, mi % 2 == 1, 1.0, &ps[(mi + 2) % 5], Some(2 * mi + 1));
+            check_planar(&mut r, &mut w, &v, mi % 2 == 1, 1e-3, &ps[(mi + 3) % 5], None);
+        }
+    }
+
     // ---------------------------------------------------------------- (b) curved disks
     let g8 = variant(&grid("grid 8x8", 8, 8, 0.2, Diag::Delaunay, 30, &all), 2, true, false, 31);
     let g15 = variant(&grid("grid 15x15", 15, 15, 0.2, Diag::Random, 32, &all), 2, true, false, 33);
@@ -682,6 +872,22 @@ pub fn run() -> Option<Report> {
     let c4 = &cs[4];
     uv_samples.push((format!("hand-made sheared UV on {}", c4.name), c4.verts.clone(), c4.faces.clone(), pol.pts.iter().map(shear).collect()));
     for (name, verts, faces, uv) in uv_samples.iter() { check_uv(&mut r, &mut w, name, verts, faces, uv); }
+    // (e) every UV query again FAR from the origin (mesh built there), UV maps far from the UV origin, operation sequences
+    let fars = [
+        ("1.2e4 from the origin", Iso3::new(Vector3::new(1.0e4, -6.0e3, 2.0e3), Vector3::new(0.9, 0.2, -1.4))),
+        ("1.7e6 from the origin", Iso3::new(Vector3::new(-1.0e6, 1.0e6, 1.0e6), Vector3::new(-0.3, 1.7, 0.5))),
+    ];
+    for (si, (name, verts, faces, uv)) in uv_samples.iter().enumerate() {
+        let (fname, far) = &fars[si % 2];
+        let moved: Vec<Point3> = verts.iter().map(|v| far * v).collect();
+        check_uv(&mut r, &mut w, &format!("{} [posed {}]", name, fname), &moved, faces, uv);
+        if si % 3 == 0 {
+            let off = if si % 2 == 0 { [1.0e4, -2.0e4] } else { [-1.0e6, 3.0e5] };
+            let uv_far: Vec<[f64; 2]> = uv.iter().map(|p| [p[0] + off[0], p[1] + off[1]]).collect();
+            check_uv(&mut r, &mut w, &format!("{} [UV map moved by {:?}]", name, off), verts, faces, &uv_far);
+        }
+        check_uv_sequences(&mut r, &mut w, name, verts, faces, uv);
+    }
 
     // ---------------------------------------------------------------- (c') the input on which the unchanged code never returns: LAST
     rejection_vertex_contact(&mut r);
